@@ -394,8 +394,9 @@ JudgeBg(s0, cfg, e) ==
 (* FX06f  NgdpMemoryPool updates its statistics with try_write(): an       *)
 (*        allocation that finds the statistics lock taken is not counted   *)
 (*        at all, stats() answers all zeros when it can take neither lock. *)
-(*        Guard: several threads, allocations (= reuses + misses) below    *)
-(*        the number of allocate calls.                                    *)
+(*        Guard: several threads; allocations (= reuses + misses) below    *)
+(*        the number of allocate calls, or max_pool_size (updated the same *)
+(*        way in deallocate) below the current pool_size.                  *)
 (* FX06i  SizedMemoryPool::allocate_for_type decides "reuse" from a pool   *)
 (*        size read BEFORE the allocation: concurrent allocations all count *)
 (*        the same idle buffer.  Guard: several threads, every call counted *)
@@ -416,11 +417,12 @@ JudgeHammer(e) ==
   IF e.target = "ngdp" THEN
     LET per(c) == LET o == e.st[c] calls == CountOps(e.ops, 0, c) frees == CountOps(e.ops, 1, c) IN
                   [ok |-> /\ o[3] + o[4] = o[1] /\ o[1] <= calls /\ o[3] <= frees
-                          /\ o[5] <= Min2p(NMaxPool(c), frees - o[3]) /\ o[6] <= NMaxPool(c) /\ o[6] >= o[5]
+                          /\ o[5] <= Min2p(NMaxPool(c), frees - o[3]) /\ o[6] <= NMaxPool(c)
                           /\ DrainOk(e.drain[c], 1, o[3], o[4], o[5]),
-                   lost |-> o[1] < calls]
+                   \* every call counted, the high-water mark not below what is pooled now
+                   exact |-> o[1] = calls /\ o[6] >= o[5]]
     IN {Cls(HamOpsOk(e.ops)), Cls(per(1).ok /\ per(2).ok /\ e.st[3][1] = 0 /\ e.st[4][1] = 0),
-        IF ~(per(1).lost \/ per(2).lost) THEN "ok" ELSE IF e.threads >= 2 THEN "FX06f" ELSE "bad"}
+        IF per(1).exact /\ per(2).exact THEN "ok" ELSE IF e.threads >= 2 THEN "FX06f" ELSE "bad"}
   ELSE
     LET per(i, c) == LET o == e.st[i] calls == CountOps(e.ops, 0, c) frees == CountOps(e.ops, 1, c) IN
                      [ok |-> o[1] = calls /\ o[3] + o[4] = calls, over |-> o[3] > frees]
